@@ -91,21 +91,30 @@ type vf07Call struct {
 // vf07Step applies one op to the real code starting from st and returns the
 // successor state and a violation description ("" if the oracle holds).
 func vf07Step(st vf07State, op vf07Op) (vf07State, string, string) {
-	origMap, origRes := mapFn, earlyReserveRegionFn
-	defer func() { mapFn, earlyReserveRegionFn = origMap, origRes }()
+	origMap, origRes, origUnmap := mapFn, earlyReserveRegionFn, unmapFn
+	defer func() { mapFn, earlyReserveRegionFn, unmapFn = origMap, origRes, origUnmap }()
 	earlyReserveRegionFn = EarlyReserveRegion
 
 	var calls []vf07Call
 	injected := false
+	nMap := 0
 	mapFn = func(p mm.Page, f mm.Frame, fl PageTableEntryFlag) *kernel.Error {
-		calls = append(calls, vf07Call{p, f, fl})
-		if op.FailAt != 0 && len(calls) == op.FailAt {
+		nMap++
+		if (op.FailAt != 0 && nMap == op.FailAt) || nMap >= vf07MapCap {
 			injected = true
-			return vf07InjErr
+			return vf07InjErr // the failing call maps nothing
 		}
-		if len(calls) >= vf07MapCap {
-			injected = true
-			return vf07InjErr
+		calls = append(calls, vf07Call{p, f, fl})
+		return nil
+	}
+
+	// an implementation may take back pages it mapped before a failure: what counts is what stays mapped
+	unmapFn = func(p mm.Page) *kernel.Error {
+		for i, c := range calls {
+			if c.page == p {
+				calls = append(calls[:i:i], calls[i+1:]...)
+				break
+			}
 		}
 		return nil
 	}
@@ -184,7 +193,7 @@ func vf07Step(st vf07State, op vf07Op) (vf07State, string, string) {
 		// success (or a failure injected by the map seam after the reservation succeeded)
 		region := addr
 		if err == vf07InjErr {
-			if len(calls) == 0 {
+			if nMap == 0 {
 				return next, "env", "injected error without a call"
 			}
 			region = next.Cursor // the reservation was made before the first page was mapped
